@@ -1,3 +1,3 @@
-CONSTANTS Prog <- CcQuick ResetLocking = "asfound" EventUnlock = TRUE HandlerFetch = FALSE
+CONSTANTS Prog <- CcQuick ResetLocking = "asfound" EventUnlock = TRUE HandlerFetch = FALSE Arm = 2 GapLocked = TRUE ResizeSameUnlocks = TRUE
 SPECIFICATION Spec
 INVARIANTS LocksetOK NoRace CallbackUnlocked NoSelfLock SnapshotAtomic ConsistentSet HolderOK
